@@ -413,7 +413,8 @@ func (r *registry) acquireAccessToken(ctx context.Context, requiredScope, wantSc
 	}
 	var expires time.Time
 	now := time.Now().UTC()
-	if issuedAt, err := time.Parse(time.RFC3339, tok.IssuedAt); err == nil && issuedAt.Before(now) {
+	// Note: RFC 3339 allows "t" and "z" in lower case too, but time.Parse doesn't.
+	if issuedAt, err := time.Parse(time.RFC3339, strings.ToUpper(tok.IssuedAt)); err == nil && issuedAt.Before(now) {
 		// The token's lifetime started when it was issued, which
 		// can be some time ago when the server caches its tokens.
 		// Note: never extend the lifetime beyond what it would be
